@@ -808,6 +808,13 @@ func configLabels(cfg *kit.Config) []string {
 		if r.IsTwin {
 			set["signature-twin:"+[]string{"plain", "multi"}[r.Form]] = true
 		}
+		for _, p := range r.Provides() {
+			for _, d := range r.Deps {
+				if p.Ident.Group != "" && d.Group != "" && d.T == p.Ident.T && d.Group != p.Ident.Group {
+					set["group-member-consumes-sibling-group:"+lifeName(r.Life)] = true
+				}
+			}
+		}
 		for _, o := range r.Outs {
 			if kit.IsSliceSvc(o.T) {
 				set["slice-typed-service"] = true
